@@ -423,7 +423,7 @@ def run(ctx):
             p = ln.split()
             cases.append(tuple([p[0]] + [bytes.fromhex("" if x == "-" else x) for x in p[1:]]))
     else:
-        t = 20 if ctx.thorough else 1
+        t = 12 if ctx.thorough else 1
         strs = gen_strings(ctx, r.fork(), 600 * t)
         pairs = gen_pairs(ctx, r.fork(), 300 * t)
         cases = [("t", s) for s in strs] + [("i", s) for s in strs]
